@@ -479,11 +479,21 @@ type job struct {
 // Run is the check entry point.
 func Run(r *vk.Run) {
 	world.Silence()
-	r.Rule = "chains produced by the real aggregator (shapes over e=empty, x=unique txs; 5-12 | 10-40 blocks) delivered to a real full node Manager with all its loops; (1) all permutations of the header/data events of 3-block (quick) and 4-block (thorough) chains through the event channels, (2) seeded mixed-ingress schedules: each part through channel injection, DA blobs (several per DA height, out of block order, empty DA heights) scanned by the real RetrieveLoop, or P2P store doubles read by the real store loops, with duplicates, omitted parts and clean restarts (SaveCache + new Manager); non-trivial = an event out of height order, duplicated, grouped on DA or a restart; distinct by (chain shape, action list). Separate trigger region: chains that repeat a non-empty tx list (finding C02-repeated-txlist)"
+	r.Rule = "chains produced by the real aggregator (shapes over e=empty, x=unique txs; 5-12 | 10-40 blocks) delivered to a real full node Manager with all its loops; (1) all permutations of the header/data events of 3-block (quick) and 4-block (thorough) chains through the event channels, (2) seeded mixed-ingress schedules: each part through channel injection, DA blobs (several per DA height, out of block order, empty DA heights) scanned by the real RetrieveLoop, or P2P store doubles read by the real store loops, with duplicates, omitted parts and clean restarts (SaveCache + new Manager); non-trivial = an event out of height order, duplicated, grouped on DA or a restart; distinct by (chain shape, action list). (4) backlog scenarios on a chain of (hand-off channel capacity + 51) empty blocks: all headers found on DA while the consumer is busy inside an execution call (DA block time 1 h, and DA block time 3 ms with the consumer busy for 300 ms more after the channel filled up), and all headers in the P2P header store before the store loop first looks at it. Separate trigger region: chains that repeat a non-empty tx list (finding C02-repeated-txlist)"
 	r.Assume("MemDS datastore double; execution double; delivery through the node's own channels/loops, not through libp2p gossip")
 	ctx := context.Background()
 	keys := world.NewKeys("proposer")
 	rng := r.Rand("chains")
+	// the long chain of the backlog scenarios is produced beside everything else
+	type longChain struct {
+		p   *world.Produced
+		err error
+	}
+	longCh := make(chan longChain, 1)
+	go func() {
+		p, err := backlogChain(ctx)
+		longCh <- longChain{p, err}
+	}()
 	var jobs []job
 	id := 0
 	// (1) exhaustive permutations on small chains
@@ -683,5 +693,7 @@ func Run(r *vk.Run) {
 	}
 	close(ch)
 	wg.Wait()
-	backlog(r)
+	backlogs(r, func() (*world.Produced, error) { lc := <-longCh; return lc.p, lc.err })
+	r.Require("backlog-nothing-dropped", 2)
+	r.Require("p2p-backlog-nothing-dropped", 1)
 }
